@@ -3,7 +3,8 @@
 
   Property theorems only.  Layers (each composed into the next; nothing is left to correspondence
   except what the last paragraph lists):
-    * forms      : `form_table` (Props/TieC04) + `form_roundtrip`, `form_classes_total`
+    * forms      : `form_table` (Props/TieC04) + `form_roundtrip`, `form_classes_total`; the legacy DW_FORM_ref
+                   (0x02): `form_ref_roundtrip`, tied by Props/TieC04 `form_ref_entry` / `form_extra_keys`
     * abbrevs    : `abbrev_roundtrip`, `abbrev_roundtrip_table` — `_parse_abbrev_table` on `encAbbrevs`
     * entries    : `die_roundtrip` (every form, DW_FORM_indirect chains of any length,
                    DW_FORM_implicit_const), `die_null_roundtrip`, `top_die_roundtrip` (`get_top_DIE`
@@ -16,14 +17,29 @@
                    `type_unit_header_roundtrip` (v4 `.debug_types`), `tiling`, `tiling_unit`,
                    `tiling_type_unit`
     * references : `ref_unit_relative`, `ref_section_relative` (DW_FORM_ref_addr through C13's unit lookup),
-                   `ref_sig8_partial` (`.debug_types`; the DWARF 5 half is a known finding)
-  Ties (Props/TieC04): struct fields, `enum_ok`, `enum_forms`, `raw2name_forms`, `enum_ut`, `base_names`.
+                   `ref_sig8_partial`, `ref_sig8_debug_types` (`.debug_types`, whole-section scan included; the
+                   DWARF 5 half is a known finding)
+    * sections   : `debug_info_exact`, `debug_types_exact` — END TO END: for every well-formed forest description
+                   (Spec/DieSection `Forest`, `wfForestB`) the model of `iter_CUs()` / `iter_TUs()` + `iter_DIEs()`
+                   on the Spec encoding of `.debug_info` / `.debug_types` / `.debug_abbrev` (+ string / address /
+                   list tables) yields exactly the described units and per unit the flattening with resolved
+                   values, parents, children, tiling up to the declared length.  The glue between a parsed unit
+                   header and the `UnitCtx` of its entries is MODELLED (Model/DieSection `unitCtx`: `cu.structs` of
+                   (format, address_size, version), abbreviation table at debug_abbrev_offset parsed with
+                   `DWARFInfo.structs`, `cu.size`) and proved (`Proofs/DieSection`), no longer a hypothesis.
+                   The theorems are about the model AS THE DRIVER RUNS IT (`Model.C04.genDInfo`: regenerated
+                   registry, regenerated struct bundles through `Model.dwarfStructsFor`): `UnitOK` asks of a
+                   unit's bundle only agreement with the standard's on the fields the DIE code reads
+                   (`Proofs.C04.BundleEq`), which Props/TieC04 `gen_bundles` proves of every regenerated bundle;
+                   `refs_info_exact` (unit- and section-relative references for every entry of every unit).
+  Ties (Props/TieC04): struct fields (`dwarf_fields`, `dwarf_fields_for`, `gen_bundles`), `enum_ok`, `enum_forms`,
+  `raw2name_forms`, `enum_ut`, `base_names`, `form_ref_entry`, `form_extra_keys`.
   Correspondence-only (model ↔ code checked by the harness on every run, no theorem):
     * signature references to DWARF 5 type units: FALSE of the code, KNOWN FINDING (known_findings.json:
-      sig8-v5-type-unit); the scan of a whole `.debug_types` into the unit list `ref_sig8_partial` starts from;
-    * the glue between a parsed unit header and the `UnitCtx` of its entries (`Driver.C04.mkCtx`:
-      structs of (format, address_size, version), abbreviation table at debug_abbrev_offset) — the
-      theorems take the `UnitCtx` with `UnitOK` / `SecsOK` as hypotheses;
+      sig8-v5-type-unit);
+    * the driver answers DW_FORM_ref_addr queries with a linear search over the scanned units (`Driver.C04.sectionRef`);
+      `refs_info_exact` is about C13's model of `get_CU_containing` (bisect over the unit cache, any reachable cache
+      state).  Both are compared with the code; that they agree with each other is not stated;
     * the cache refinement of `_get_cached_DIE` / `_dielist` (C10), incl. a DIE fetched below
       cu_die_offset taking the top DIE's slot (driver: `fetch` / `low_fetch`).
 -/
@@ -39,6 +55,9 @@ import PyElf.Proofs.DieHeaders
 import PyElf.Proofs.DieValues
 import PyElf.Proofs.DieTop
 import PyElf.Proofs.DieChildren
+import PyElf.Spec.DieSection
+import PyElf.Model.DieSection
+import PyElf.Proofs.DieSection
 import PyElf.Props.TieC04
 namespace PyElf.Props.C04
 open PyElf PyElf.Spec PyElf.Spec.C04 PyElf.Model.C04 PyElf.Proofs PyElf.Proofs.C04
@@ -48,7 +67,7 @@ open PyElf PyElf.Spec PyElf.Spec.C04 PyElf.Model.C04 PyElf.Proofs PyElf.Proofs.C
 /-- every form of the table × every configuration × every in-range operand (LEB128 of any
     length, empty and large blocks, …), anywhere in any byte string: the registered parser
     returns the operand's value and consumes exactly its bytes -/
-theorem form_roundtrip (env : Env) (c : DwarfCfg) (k : Nat) (hk : k ∈ formCodes) (cl : Cls)
+theorem form_roundtrip (env : Env) (c : DwarfCfg) (k : Nat) (hk : k ∈ stdFormCodes) (cl : Cls)
     (hcl : formClass c k = some cl) (op : Operand) (hwf : wfOperand cl op = true) (pre rest : Bytes) (ctx : Fields) :
     ∃ P, (Spec.dwarfStructs c).form ((formName k).getD "") = some P ∧
       Con.parse env (pre ++ encOperand c.le cl op ++ rest) P ctx pre.length
@@ -57,7 +76,24 @@ theorem form_roundtrip (env : Env) (c : DwarfCfg) (k : Nat) (hk : k ∈ formCode
   · rw [TieC04.form_table c k hk, hcl]; rfl
   · exact operand_roundtrip cl op hwf (drop_pre pre _ rest)
 
-/-- the whole operand table of DWARF 5 §7.5.6 is covered: every listed code has an encoding class -/
+/--
+  form_ref_roundtrip.  The legacy DW_FORM_ref (code 0x02; unassigned in DWARF 2–5, the 4-byte FORM_REF of DWARF 1.1,
+  read by the library as a unit-relative reference): `Dwarf_dw_form['DW_FORM_ref']` — in the model the answer of
+  `formParser`, tied to the regenerated dict entry of all 32 configurations by Props/TieC04 `form_ref_entry`,
+  `form_extra_keys` — reads exactly the four bytes of the operand, in the unit's byte order.  With it code 0x02 is a
+  member of `formCodes` / has a `formClass`, so every theorem below (`die_roundtrip`, `iter_dies_exact`,
+  `debug_info_exact`, DW_AT_sibling in that form through `sibsOk`) covers entries that use it.
+-/
+theorem form_ref_roundtrip (env : Env) (c : DwarfCfg) (v : Nat) (hv : v < 256 ^ 4) (pre rest : Bytes) (ctx : Fields) :
+    formClass c 0x02 = some (.fixed 4) ∧ formName 0x02 = some "DW_FORM_ref" ∧
+    ∃ P, formParser (Spec.dwarfStructs c) (.str "DW_FORM_ref") = .ok P ∧
+      Con.parse env (pre ++ encOperand c.le (.fixed 4) (.nat v) ++ rest) P ctx pre.length
+        = .ok (.int v, pre.length + (encOperand c.le (.fixed 4) (.nat v)).length, ctx) := by
+  refine ⟨rfl, rfl, clsCon c.le (.fixed 4), rfl, ?_⟩
+  exact operand_roundtrip (.fixed 4) (.nat v) (by simpa [wfOperand] using hv) (drop_pre pre _ rest)
+
+/-- the whole operand table of DWARF 5 §7.5.6 (and the legacy code 0x02) is covered: every listed code has an
+    encoding class -/
 theorem form_classes_total (c : DwarfCfg) : formCodes.all (fun k => (formClass c k).isSome) = true := by
   cases c; rfl
 
@@ -202,7 +238,7 @@ theorem die_null_roundtrip {U : UnitCtx} {c : DwarfCfg} {nm : Names} (hU : UnitO
 /-- the regenerated registry and `DW_FORM_raw2name` satisfy `UnitOK`'s naming clauses -/
 theorem unit_ok_gen (U : UnitCtx) (c : DwarfCfg) (hS : U.S = Spec.dwarfStructs c) (hr : U.raw2name = genRaw2name) :
     UnitOK U c (namesOf Model.genEnumDecode) where
-  structs := hS
+  structs := BundleEq.of_eq hS
   raw2name := fun k hk => by
     have := List.all_eq_true.1 TieC04.raw2name_forms k hk
     rw [hr]; simpa using this
@@ -504,6 +540,241 @@ theorem ref_sig8_partial (pre post : List (Model.Lookup.CU × R UnitCtx)) (cu : 
       simp [this])]
   simp only [hto, hG]
 
+/-! ### whole sections, end to end -/
+
+/-- the regenerated registry and `DW_FORM_raw2name` have every fact the composition uses (Props/TieC04) -/
+theorem registry_gen : RegistryOK Model.genEnumDecode genRaw2name where
+  enum := TieC04.enum_ok
+  ut := TieC04.enum_ut
+  forms := fun k hk => by simpa using List.all_eq_true.1 TieC04.enum_forms k hk
+  raw2name := fun k hk => by simpa using List.all_eq_true.1 TieC04.raw2name_forms k hk
+  bases := TieC04.base_names
+
+/-- … hence any unit context whose bundle agrees with the standard's on the fields the DIE code reads (`BundleEq`:
+    every regenerated bundle, Props/TieC04 `gen_bundles`) and that uses the regenerated `DW_FORM_raw2name` is `UnitOK`
+    (`unit_ok_gen` above with the bundle hypothesis weakened from equality) -/
+theorem unit_ok_gen_bundle (U : UnitCtx) (c : DwarfCfg) (hS : BundleEq U.S (Spec.dwarfStructs c))
+    (hr : U.raw2name = genRaw2name) : UnitOK U c (namesOf Model.genEnumDecode) :=
+  unitOK_of_registry registry_gen U c hS hr
+
+/-- how the regenerated registry presents tag / attribute / form numbers -/
+abbrev genNames : Names := namesOf Model.genEnumDecode
+
+/-- the resolved-value function of a unit of a forest: `resolve` against the forest's sections with the bases
+    of the unit's top entry -/
+abbrev unitRho (F : Forest) (u : UnitDesc) : Val → Val → Val := rho (u.cfg F.le) F.secs (basesOf u.tree.root)
+
+/-- the struct bundles of the model as the driver runs it: the regenerated constructor `Model.dwarfStructsFor`,
+    and for `DWARFInfo.structs` its answer for (32-bit format, default address size, version 2) -/
+def genBundles (le : Bool) (dasz : Nat) : Bundles :=
+  { structsOf := Model.dwarfStructsFor,
+    S0 := (Model.dwarfStructsFor ⟨le, 32, dasz, 2⟩).getD (Spec.dwarfStructs ⟨le, 32, dasz, 2⟩) }
+
+/-- … agree with the standard's on every field the DIE code reads (Props/TieC04 `gen_bundles`, from the regenerated
+    bundles); `dasz ∈ {4, 8}` is what `DWARFStructs.__new__` asserts of `config.default_address_size` -/
+theorem genBundles_ok (le : Bool) (dasz : Nat) (hd : dasz = 4 ∨ dasz = 8) : BundlesOK (genBundles le dasz) le dasz := by
+  have hmem : (⟨le, 32, dasz, 2⟩ : DwarfCfg) ∈ Spec.allDwarfCfgs :=
+    cfg_mem_all le false hd (by omega) (by omega)
+  refine ⟨?_, TieC04.gen_bundles⟩
+  obtain ⟨S, h1, h2⟩ := TieC04.gen_bundles _ hmem
+  simp only [genBundles, h1, Option.getD_some]
+  exact h2
+
+/-- `DWARFInfo.structs` of the regenerated constructor is what the driver starts from -/
+theorem genBundles_S0 (le : Bool) (dasz : Nat) (hd : dasz = 4 ∨ dasz = 8) :
+    Model.dwarfStructsFor ⟨le, 32, dasz, 2⟩ = some (genBundles le dasz).S0 := by
+  have hmem : (⟨le, 32, dasz, 2⟩ : DwarfCfg) ∈ Spec.allDwarfCfgs :=
+    cfg_mem_all le false hd (by omega) (by omega)
+  obtain ⟨S, h1, _⟩ := TieC04.gen_bundles _ hmem
+  simp only [genBundles, h1, Option.getD_some]
+
+/-- the `DWARFInfo` over the encoded sections of a forest, everything else regenerated — `Model.C04.genDInfo`, the
+    model the driver runs -/
+abbrev forestDInfo (F : Forest) (dasz : Nat) : DInfo :=
+  genDInfo F.le dasz (some (infoSec F)) (some (encTables F.tables)) (some (typesSec F)) F.secs
+
+theorem forestDInfo_eq (F : Forest) (dasz : Nat) :
+    forestDInfo F dasz = dinfoOf F dasz Model.genEnumDecode genRaw2name (genBundles F.le dasz).structsOf := rfl
+
+/-- the unit context the glue builds for a unit of `.debug_info` placed at `p.1` (`sectionUnits_info`) -/
+abbrev infoCtx (F : Forest) (dasz : Nat) (p : Nat × UnitDesc) : UnitCtx :=
+  ctxOf F Model.genEnumDecode genRaw2name (genBundles F.le dasz) (infoSec F) p.2 p.1 (infoDieOff F p.1 p.2)
+    (Lookup.unitSize F.le (infoUnitOf F p.2))
+
+/-- … for a type unit of `.debug_types` -/
+abbrev typesCtx (F : Forest) (dasz : Nat) (p : Nat × UnitDesc) : UnitCtx :=
+  ctxOf F Model.genEnumDecode genRaw2name (genBundles F.le dasz) (typesSec F) p.2 p.1 (typesDieOff F p.1 p.2)
+    (encTUOf F p.2).length
+
+/--
+  debug_info_exact.  For EVERY well-formed forest description `F` (`wfForestB`, decidable: abbreviation tables
+  with distinct non-zero codes placed anywhere in `.debug_abbrev` — arbitrary bytes between tables, tables
+  shared by units —, units of DWARF version 2–5, both DWARF formats, address size 4 | 8, any of the six
+  DWARF 5 unit types, each naming one table and carrying a tree of entries with operands in range of their
+  forms (every form of DWARF 5 table 7.6, the GNU alt forms, the legacy DW_FORM_ref; DW_FORM_indirect chains,
+  implicit_const), distinct attribute names, values that resolve against the forest's `.debug_str`,
+  `.debug_line_str`, `.debug_str_offsets`, `.debug_addr`, `.debug_loclists`, `.debug_rnglists`, DW_AT_sibling
+  designating the next sibling; sections shorter than 2^63) and either byte order, the model of
+
+      for cu in dwarfinfo.iter_CUs():  list(cu.iter_DIEs())
+
+  on the Spec encoding of the sections (`infoSec F`, `encTables F.tables`, `F.secs`), run EXACTLY AS THE DRIVER
+  RUNS IT (`forestDInfo` = `Model.C04.genDInfo`: regenerated enum registry, regenerated struct bundles through
+  `Model.dwarfStructsFor`, regenerated `DW_FORM_raw2name`; `DWARFInfo.structs` of the default address size `dasz`,
+  unit headers through `_parse_CU_at_offset`, `cu.structs` of the header's (format, address_size, version),
+  abbreviation table of `debug_abbrev_offset` — the glue `Model.C04.unitCtx`, no longer a hypothesis) yields
+   (1) exactly the described units, in order, each with its header container, format, unit offset and first-entry
+       offset (`cuOf`), no exception ending the iteration, and per unit exactly the pre-order flattening of its
+       tree: offset, size, abbreviation code, tag, child flag and, in order, each attribute's name, final form,
+       raw value, resolved value and offset, null entries closing the sibling lists, every entry with the parent
+       the nesting gives it;
+  and for every unit
+   (2) the entries tile the unit without gap or overlap from the first-entry offset to `cu_offset + cu.size`
+       (`size` computed from the DECLARED length of the parsed header),
+   (3) the recorded parents are the (parent, child) pairs of the encoded nesting,
+   (4) `iter_children()` of every entry lists exactly its encoded children,
+   (5) `_get_cached_DIE` finds every entry at its offset (what reference resolution starts from: `refs_info_exact`).
+  `G` is `_get_cached_DIE`: any function that agrees with the pure parse-on-miss `getCachedDIE` from each unit's
+  first-entry offset on (the driver's `fetch` is one, `getCachedDIE` itself another); the cache refinement is C10.
+  No hypothesis besides the description's well-formedness (and `dasz ∈ {4, 8}`, without which `DWARFInfo.__init__`
+  raises) is left: registry facts are `registry_gen`, bundle facts `genBundles_ok` (both from Props/TieC04).
+-/
+theorem debug_info_exact (F : Forest) (dasz : Nat) (hdasz : dasz = 4 ∨ dasz = 8) (hwf : wfForestB genNames F = true)
+    (G : UnitCtx → Nat → R DieObs) (hG : ∀ U o, U.cuDieOffset ≤ o → G U o = getCachedDIE U o) :
+    iterSection G (forestDInfo F dasz) (genBundles F.le dasz).S0 (some (infoSec F)) false
+      = ((placeInfo F 0 F.units).map fun p =>
+          (Proofs.Lookup.cuOf F.le p.1 (infoUnitOf F p.2),
+           .ok (flattenUnitP genNames (p.2.cfg F.le) (unitRho F p.2) (unitRho F p.2) (infoDieOff F p.1 p.2) p.2.tree)),
+         none)
+    ∧ ∀ p ∈ placeInfo F 0 F.units,
+        (∃ sz, (Proofs.Lookup.cuOf F.le p.1 (infoUnitOf F p.2)).size = .ok sz ∧
+          Tiles (Proofs.Lookup.cuOf F.le p.1 (infoUnitOf F p.2)).cuDieOffset
+            (flattenUnit genNames (p.2.cfg F.le) (unitRho F p.2) (unitRho F p.2) (infoDieOff F p.1 p.2) p.2.tree)
+            ((Proofs.Lookup.cuOf F.le p.1 (infoUnitOf F p.2)).cuOffset + sz))
+        ∧ parentsOf (flattenUnitP genNames (p.2.cfg F.le) (unitRho F p.2) (unitRho F p.2) (infoDieOff F p.1 p.2) p.2.tree)
+            = parentPairs (p.2.cfg F.le) (infoDieOff F p.1 p.2) p.2.tree
+        ∧ (flattenUnit genNames (p.2.cfg F.le) (unitRho F p.2) (unitRho F p.2) (infoDieOff F p.1 p.2) p.2.tree).map
+              (childrenOf (G (infoCtx F dasz p)) p.1 (unitFuel (infoCtx F dasz p)))
+            = (childLists (p.2.cfg F.le) (infoDieOff F p.1 p.2) p.2.tree).map .ok
+        ∧ Covered (G (infoCtx F dasz p))
+            (flattenUnit genNames (p.2.cfg F.le) (unitRho F p.2) (unitRho F p.2) (infoDieOff F p.1 p.2) p.2.tree) := by
+  have hW := wfForest_of_B genNames F hwf
+  have hB := genBundles_ok F.le dasz hdasz
+  refine ⟨iterSection_info registry_gen F dasz hB hW G hG, fun p hp => ?_⟩
+  have h := forest_info_unit registry_gen F dasz hB hW (G (infoCtx F dasz p)) p hp (fun o ho => hG _ o ho)
+  exact ⟨⟨_, cuOf_size_all, info_unit_tiles genNames _ _ F p.1 p.2⟩, flattenUnitP_parents genNames _ _ _ _ _, h.2, h.1⟩
+
+/-- the units `iter_CUs()` yields come with exactly the contexts `infoCtx` (`sectionUnits` is what both
+    `iterSection` and the driver's reference queries start from) -/
+theorem debug_info_units (F : Forest) (dasz : Nat) (hdasz : dasz = 4 ∨ dasz = 8) (hwf : wfForestB genNames F = true) :
+    sectionUnits (forestDInfo F dasz) (genBundles F.le dasz).S0 (some (infoSec F)) false
+      = ((placeInfo F 0 F.units).map fun p => (Proofs.Lookup.cuOf F.le p.1 (infoUnitOf F p.2), .ok (infoCtx F dasz p)), none) :=
+  sectionUnits_info registry_gen F dasz (genBundles_ok F.le dasz hdasz) (wfForest_of_B genNames F hwf).infoHdr
+
+/--
+  debug_types_exact.  The same for `.debug_types` (DWARF 4 §7.5.1.2 type units; `iter_TUs()`, `_parse_TU_at_offset`,
+  `TypeUnit.iter_DIEs()`): exactly the described type units (header container with signature and type_offset,
+  format, offsets) and per unit the flattening of its tree; tiling up to `tu_offset + size`, parents, children,
+  `_get_cached_DIE` on every entry.
+-/
+theorem debug_types_exact (F : Forest) (dasz : Nat) (hdasz : dasz = 4 ∨ dasz = 8) (hwf : wfForestB genNames F = true)
+    (G : UnitCtx → Nat → R DieObs) (hG : ∀ U o, U.cuDieOffset ≤ o → G U o = getCachedDIE U o) :
+    iterSection G (forestDInfo F dasz) (genBundles F.le dasz).S0 (some (typesSec F)) true
+      = ((placeTypes F 0 F.tus).map fun p =>
+          (tuOf F.le p.1 (tuHeaderOf F p.2) (encTree (p.2.cfg F.le) p.2.tree),
+           .ok (flattenUnitP genNames (p.2.cfg F.le) (unitRho F p.2) (unitRho F p.2) (typesDieOff F p.1 p.2) p.2.tree)),
+         none)
+    ∧ ∀ p ∈ placeTypes F 0 F.tus,
+        (∃ sz, (tuOf F.le p.1 (tuHeaderOf F p.2) (encTree (p.2.cfg F.le) p.2.tree)).size = .ok sz ∧
+          Tiles (tuOf F.le p.1 (tuHeaderOf F p.2) (encTree (p.2.cfg F.le) p.2.tree)).cuDieOffset
+            (flattenUnit genNames (p.2.cfg F.le) (unitRho F p.2) (unitRho F p.2) (typesDieOff F p.1 p.2) p.2.tree)
+            ((tuOf F.le p.1 (tuHeaderOf F p.2) (encTree (p.2.cfg F.le) p.2.tree)).cuOffset + sz))
+        ∧ parentsOf (flattenUnitP genNames (p.2.cfg F.le) (unitRho F p.2) (unitRho F p.2) (typesDieOff F p.1 p.2) p.2.tree)
+            = parentPairs (p.2.cfg F.le) (typesDieOff F p.1 p.2) p.2.tree
+        ∧ (flattenUnit genNames (p.2.cfg F.le) (unitRho F p.2) (unitRho F p.2) (typesDieOff F p.1 p.2) p.2.tree).map
+              (childrenOf (G (typesCtx F dasz p)) p.1 (unitFuel (typesCtx F dasz p)))
+            = (childLists (p.2.cfg F.le) (typesDieOff F p.1 p.2) p.2.tree).map .ok
+        ∧ Covered (G (typesCtx F dasz p))
+            (flattenUnit genNames (p.2.cfg F.le) (unitRho F p.2) (unitRho F p.2) (typesDieOff F p.1 p.2) p.2.tree) := by
+  have hW := wfForest_of_B genNames F hwf
+  have hB := genBundles_ok F.le dasz hdasz
+  refine ⟨iterSection_types registry_gen F dasz hB hW G hG, fun p hp => ?_⟩
+  have h := forest_types_unit registry_gen F dasz hB hW (G (typesCtx F dasz p)) p hp (fun o ho => hG _ o ho)
+  exact ⟨⟨_, tuOf_size _ _ _ _, types_unit_tiles genNames _ _ F p.1 p.2⟩, flattenUnitP_parents genNames _ _ _ _ _, h.2, h.1⟩
+
+/-- … and the type units `iter_TUs()` / `_parse_debug_types` find come with exactly the contexts `typesCtx` -/
+theorem debug_types_units (F : Forest) (dasz : Nat) (hdasz : dasz = 4 ∨ dasz = 8) (hwf : wfForestB genNames F = true) :
+    sectionUnits (forestDInfo F dasz) (genBundles F.le dasz).S0 (some (typesSec F)) true
+      = ((placeTypes F 0 F.tus).map fun p =>
+          (tuOf F.le p.1 (tuHeaderOf F p.2) (encTree (p.2.cfg F.le) p.2.tree), .ok (typesCtx F dasz p)), none) :=
+  sectionUnits_types F dasz (genBundles_ok F.le dasz hdasz) (wfForest_of_B genNames F hwf).typesHdr
+
+/-- the same statements hold of the model run with the standard's bundles themselves (the form the layers above
+    are stated in: `specP`, `Spec.dwarfStructs`), for any default address size -/
+theorem debug_info_exact_spec (F : Forest) (dasz : Nat) (hwf : wfForestB genNames F = true)
+    (G : UnitCtx → Nat → R DieObs) (hG : ∀ U o, U.cuDieOffset ≤ o → G U o = getCachedDIE U o) :
+    iterSection G (dinfoOf F dasz Model.genEnumDecode genRaw2name (fun c => some (Spec.dwarfStructs c)))
+        (Spec.dwarfStructs ⟨F.le, 32, dasz, 2⟩) (some (infoSec F)) false
+      = ((placeInfo F 0 F.units).map fun p =>
+          (Proofs.Lookup.cuOf F.le p.1 (infoUnitOf F p.2),
+           .ok (flattenUnitP genNames (p.2.cfg F.le) (unitRho F p.2) (unitRho F p.2) (infoDieOff F p.1 p.2) p.2.tree)),
+         none) :=
+  iterSection_info registry_gen F dasz (specBundles_ok F.le dasz) (wfForest_of_B genNames F hwf) G hG
+
+/--
+  ref_sig8_debug_types.  The `.debug_types` half of the signature clause with NO hypothesis about the scan:
+  `get_DIE_by_sig8(sig)` on the encoded `.debug_types` of a well-formed forest — `_parse_debug_types` scans the
+  whole section into the unit list (`sectionUnits`, discharged by `debug_types_units`), the map keyed
+  by signature keeps the LAST unit carrying `sig` (`hsplit`, `hlast`: for the unique signatures DWARF prescribes,
+  `post` has none) — returns the entry `d` of that unit lying at `tu_offset + type_offset`, together with the
+  unit's offset.  (`ref_sig8_partial` above is this with the unit list as a hypothesis.  The DWARF 5 half of
+  the clause — type units in `.debug_info` — stays the known finding `sig8-v5-type-unit`.)
+-/
+theorem ref_sig8_debug_types (F : Forest) (dasz : Nat) (hdasz : dasz = 4 ∨ dasz = 8) (hwf : wfForestB genNames F = true)
+    (G : UnitCtx → Nat → R DieObs) (hG : ∀ U o, U.cuDieOffset ≤ o → G U o = getCachedDIE U o)
+    (pre post : List (Nat × UnitDesc)) (p : Nat × UnitDesc) (hsplit : placeTypes F 0 F.tus = pre ++ p :: post)
+    (hlast : ∀ q ∈ post, q.2.id8 ≠ p.2.id8) (d : DieObs)
+    (hd : d ∈ flattenUnit genNames (p.2.cfg F.le) (unitRho F p.2) (unitRho F p.2) (typesDieOff F p.1 p.2) p.2.tree)
+    (hdx : d.offset = p.1 + p.2.typeOff) :
+    sig8Lookup G (forestDInfo F dasz) (genBundles F.le dasz).S0 (p.2.id8 : Int) = .ok (p.1, d) :=
+  sig8_forest registry_gen F dasz (genBundles_ok F.le dasz hdasz) (wfForest_of_B genNames F hwf) G hG pre post p hsplit
+    hlast d hd hdx
+
+/--
+  refs_info_exact.  Unit-relative and section-relative references at the level of whole sections, no hypothesis
+  besides the forest's well-formedness: for EVERY entry `d` (null entries included) of every unit `p` of
+  `.debug_info`,
+   * `cu.get_DIE_from_refaddr(d.offset)` — what `get_DIE_from_attribute` calls for DW_FORM_ref1/2/4/8/ref/ref_udata
+     after adding `cu_offset` — passes the range check against the first-entry offset and the declared size and
+     returns exactly `d` (`infoCtx` is the context `iter_CUs()` gives that unit: `debug_info_units`);
+   * `dwarfinfo.get_CU_containing(d.offset)` — DW_FORM_ref_addr — returns the unit `p` from every reachable state
+     of the unit cache (`Inv`), leaving a reachable state; that unit's `get_DIE_from_refaddr` is the first bullet.
+  (`ref_unit_relative` / `ref_section_relative` above are these with the unit context and `Covered` as hypotheses;
+  the signature form is `ref_sig8_debug_types`.)
+-/
+theorem refs_info_exact (F : Forest) (dasz : Nat) (hdasz : dasz = 4 ∨ dasz = 8) (hwf : wfForestB genNames F = true)
+    (p : Nat × UnitDesc) (hp : p ∈ placeInfo F 0 F.units) (d : DieObs)
+    (hd : d ∈ flattenUnit genNames (p.2.cfg F.le) (unitRho F p.2) (unitRho F p.2) (infoDieOff F p.1 p.2) p.2.tree) :
+    unitDIEFromRefaddr (infoCtx F dasz p) d.offset = .ok d
+      ∧ ∀ st, Proofs.Lookup.Inv (Proofs.Lookup.specP Model.genEnumDecode F.le dasz (infoSec F))
+            (Proofs.Lookup.cusOf F.le 0 (F.units.map (infoUnitOf F))) st →
+          ∃ st', Model.Lookup.getCUContaining (Proofs.Lookup.specP Model.genEnumDecode F.le dasz (infoSec F))
+                (infoSec F).length st d.offset = (.ok (Proofs.Lookup.cuOf F.le p.1 (infoUnitOf F p.2)), st')
+            ∧ Proofs.Lookup.Inv (Proofs.Lookup.specP Model.genEnumDecode F.le dasz (infoSec F))
+                (Proofs.Lookup.cusOf F.le 0 (F.units.map (infoUnitOf F))) st' :=
+  forest_refs_info registry_gen F dasz (genBundles_ok F.le dasz hdasz) (wfForest_of_B genNames F hwf) p hp d hd
+
+/-- `_parse_CU_at_offset` as the model runs it (regenerated bundles) IS the parser `specP` the unit-lookup theorems
+    (C13, `ref_section_relative`, `refs_info_exact`) are stated with -/
+theorem parseCU_gen_eq_spec (le : Bool) (dasz : Nat) (hdasz : dasz = 4 ∨ dasz = 8) (data : Bytes) :
+    Model.Lookup.parseCUAtOffset Model.genEnumDecode Model.dwarfStructsFor (genBundles le dasz).S0 le data
+      = Proofs.Lookup.specP Model.genEnumDecode le dasz data :=
+  parseCU_bundles (genBundles_ok le dasz hdasz) data
+
+/-- the driver's marked fetch is `_get_cached_DIE` from the first-entry offset on -/
+theorem fetch_agrees (U : UnitCtx) (o : Nat) (h : U.cuDieOffset ≤ o) : fetch U o = getCachedDIE U o := by
+  unfold fetch; rw [if_neg (by omega)]
+
 /-! ### non-vacuity -/
 
 /-- a two-level tree: a parent that owns children and carries DW_AT_sibling (DW_FORM_ref4), a
@@ -570,7 +841,7 @@ example : encTree exCfg exTree2 = [1, 1, 8, 0, 0, 0, 2, 34, 0, 0, 0, 0x96, 0, 0x
 
 
 theorem exU_ok : UnitOK exU exCfg exNames2 where
-  structs := rfl
+  structs := BundleEq.refl _
   raw2name := fun _ _ => rfl
   formNames := fun k hk => by
     have h : formCodes.all (fun k => (formName k).isSome) = true := by decide
@@ -627,5 +898,66 @@ def exUnit5 : Lookup.InfoUnit :=
 def exTU4 : TUHeader := { fmt64 := false, version := 4, abbrevOff := 0, asz := 4, signature := 5, typeOff := 23 }
 example : Lookup.wfUnit true exUnit5 = true := by decide
 example : wfTU false exTU4 (encTree exCfg exTree2) = true := by decide
+
+/-! ### non-vacuity of the section layer -/
+
+def exD3 : AbbrevDecl := { code := 1, tag := 0x41, children := true, specs := [{ name := 0x03, form := 0x08 }] }
+def exD4 : AbbrevDecl :=
+  { code := 7, tag := 0x24, children := false, specs := [{ name := 0x0b, form := 0x0b }, { name := 0x49, form := 0x20 }] }
+def exTree3 : Tree :=
+  .mk { decl := exD3, attrs := [{ form := 0x08, op := .str [0x54] }] }
+    [.mk { decl := exD4, attrs := [{ form := 0x0b, op := .nat 4 }, { form := 0x20, op := .nat 5 }] } [] 1] 2
+
+/-- a forest: two abbreviation tables (the second behind three stray bytes, shared by three units); in
+    `.debug_info` a DWARF 4 unit (32-bit format; the tree of `exTree2`: strx1 through DW_AT_str_offsets_base,
+    DW_AT_sibling, a DW_FORM_indirect chain, implicit_const, strp, padded codes and null entries), a DWARF 5
+    split type unit in 64-bit format with 8-byte addresses, a DWARF 2 unit; in `.debug_types` a DWARF 4 type unit
+    whose type_offset designates its second entry -/
+def exForest : Forest :=
+  { le := true,
+    tables := [{ decls := exDecls2, endLen := 2 }, { gap := [0xEE, 0xEE, 0xEE], decls := [exD3, exD4] }],
+    units := [{ fmt64 := false, version := 4, asz := 4, table := 0, tree := exTree2 },
+              { fmt64 := true, version := 5, utype := 6, asz := 8, id8 := 0x1122334455667788, typeOff := 43, table := 1,
+                tree := exTree3 },
+              { fmt64 := false, version := 2, asz := 8, table := 1, tree := exTree3 }],
+    tus := [{ fmt64 := false, version := 4, asz := 4, id8 := 5, typeOff := 26, table := 1, tree := exTree3 }],
+    secs := exSecs }
+
+/-- the forest is well formed against the REGENERATED registry -/
+theorem exForest_wf : wfForestB genNames exForest = true := by decide +kernel
+
+example : (placeInfo exForest 0 exForest.units).map (fun p => (p.1, infoDieOff exForest p.1 p.2)) = [(0, 11), (35, 75), (90, 101)] := by
+  decide +kernel
+example : tableOff exForest.tables 1 = 35 := by decide +kernel
+
+/-- `debug_info_exact` / `debug_types_exact` apply to it, with the driver's `fetch` as `_get_cached_DIE` -/
+example := debug_info_exact exForest 4 (Or.inl rfl) exForest_wf fetch fetch_agrees
+example := debug_types_exact exForest 8 (Or.inr rfl) exForest_wf getCachedDIE (fun _ _ _ => rfl)
+
+/-- the third entry of the first unit of `exForest` (offset 26, abbreviation code 300) -/
+def exEntry : DieObs :=
+  (flattenUnit genNames ((exForest.units[0]).cfg true) (unitRho exForest exForest.units[0])
+    (unitRho exForest exForest.units[0]) 11 exTree2)[2]'(by decide +kernel)
+
+/-- `refs_info_exact`: … is what a unit-relative reference to it yields -/
+example : exEntry.offset = 26 ∧ exEntry.code = 300 ∧
+    unitDIEFromRefaddr (infoCtx exForest 4 (0, exForest.units[0])) 26 = .ok exEntry := by
+  have hmem : exEntry ∈ flattenUnit genNames ((exForest.units[0]).cfg true) (unitRho exForest exForest.units[0])
+      (unitRho exForest exForest.units[0]) 11 exTree2 := List.getElem_mem _
+  have h := (refs_info_exact exForest 4 (Or.inl rfl) exForest_wf (0, exForest.units[0]) (List.Mem.head _) _ hmem).1
+  have e : exEntry.offset = 26 := by decide +kernel
+  rw [e] at h
+  exact ⟨e, by decide +kernel, h⟩
+
+example : (form_ref_roundtrip Env.empty exCfg 0x01020304 (by decide) [0xAA] [0xBB] []).1 = rfl := rfl
+
+/-- `ref_sig8_debug_types`: signature 5 resolves to the entry at offset 26 of the type unit at offset 0 -/
+example : ∃ d : DieObs, d.offset = 26 ∧ d.code = 7 ∧
+    sig8Lookup fetch (forestDInfo exForest 4) (genBundles true 4).S0 5 = .ok (0, d) := by
+  have hmem : (flattenUnit genNames ((exForest.tus[0]).cfg true) (unitRho exForest exForest.tus[0])
+      (unitRho exForest exForest.tus[0]) 23 exTree3)[1]'(by decide +kernel) ∈ _ := List.getElem_mem _
+  exact ⟨_, by decide +kernel, by decide +kernel,
+    ref_sig8_debug_types exForest 4 (Or.inl rfl) exForest_wf fetch fetch_agrees [] [] (0, exForest.tus[0]) rfl (by simp) _ hmem
+      (by decide +kernel)⟩
 
 end PyElf.Props.C04
